@@ -446,6 +446,37 @@ def rule_noalias(F, R, rule="R-C01-8", files=("src/solver/",)):
     return n
 
 
+def rule_lsearch0_history(F, R):
+    """R-C01-9: the initial-step rules carry values of the previous iteration in members (m_prevf, m_prevdg) and are called once per iteration:
+    every such member that get() reads must be refreshed on *every* path through get(), with a value of the current iterate. A member
+    refreshed on the first-iteration path only keeps the slope of the first direction for the whole run: the initial step collapses as the
+    decrease shrinks and every line search pays for it - the evaluation budget of the quasi-Newton solvers is exceeded on long runs."""
+    from .c15 import must_written_members
+    n = 0
+    for f in F.functions.values():
+        if f.body is None or f.name != "get" or not f.relfile.startswith("src/lsearch0/") or not (f.cls or "").startswith("nano::lsearch0_"):
+            continue
+        read = set()
+        lhs = set()
+        for x in f.nodes():
+            a_ = assignment(x)
+            if a_:
+                for y in walk(a_[0]):
+                    lhs.add(y["i"])
+        for x in f.nodes():
+            if x["k"] == "mem" and (x.get("n") or "").startswith("m_prev") and x["i"] not in lhs and (not x.get("c") or skip(x["c"][0])["k"] == "this"):
+                read.add(x["n"])
+        if not read:
+            continue
+        written = must_written_members(F, f, f.cls)
+        for m_ in sorted(read):
+            n += 1
+            R.check(m_ in written, "R-C01-9", "%s %s" % (f.cls.split("::")[-1], m_), f.loc(), "%s is refreshed on every path through get()" % m_,
+                    "`%s` is read by get() but not written on every path through it: on the other paths it keeps the value of an earlier iteration (e.g. the slope along "
+                    "the very first direction), the interpolated initial step is then computed from unrelated quantities and shrinks towards its lower clamp" % m_)
+    R.floor("R-C01-9", n, 3, "history members of the initial-step rules")
+
+
 def run(ctx):
     R = ctx.report
     tus = ctx.all_tus() if ctx.thorough else sorted(set(TUS) | set(c02.SOLVER_TUS))
@@ -459,5 +490,6 @@ def run(ctx):
     rule_descent(F, R)
     rule_lbfgs(F, R)
     rule_secant(F, R)
+    rule_lsearch0_history(ctx.facts(tus + ["src/lsearch0/quadratic.cpp", "src/lsearch0/linear.cpp"]) if not ctx.thorough else F, R)
     nn = rule_noalias(F, R)
     R.ok("R-C01-8", "noalias sites", "src/solver:1", "%d in-place product assignments inspected in the solvers" % nn)
